@@ -30,6 +30,7 @@ import (
 	"github.com/tailscale/setec/db"
 	"github.com/tailscale/setec/server"
 	"github.com/tailscale/setec/types/api"
+	"tailscale.com/client/local"
 	"tailscale.com/client/tailscale/apitype"
 	"tailscale.com/tailcfg"
 
@@ -63,7 +64,8 @@ var endpoints = []ops.Kind{ops.Get, ops.Put, ops.List, ops.Info, ops.Act, ops.De
 var methods = []string{"POST", "GET", "PUT", "DELETE", "HEAD", "OPTIONS", "PATCH"}
 var ctypes = []string{"application/json", "application/json; charset=utf-8", "text/plain", "", "application/x-www-form-urlencoded", "Application/JSON"}
 var browserHdr = []string{"setec", "", "other", "Setec", "setec "}
-var whoKinds = []string{"user", "tagged", "anonymous", "error", "plain-cap", "https-cap", "both-caps", "malformed-grant", "wrong-type-grant", "empty-grants", "no-caps", "bad-remote-addr", "restricted", "https-malformed", "plain-empty-https-malformed", "https-wrong-type", "plain-ok-https-malformed"}
+var whoKinds = []string{"user", "tagged", "anonymous", "error", "plain-cap", "https-cap", "both-caps", "malformed-grant", "wrong-type-grant", "empty-grants", "no-caps", "bad-remote-addr", "restricted", "https-malformed", "plain-empty-https-malformed", "https-wrong-type", "plain-ok-https-malformed",
+	"tagged-with-owner-profile", "error-peer-not-found", "error-peer-not-found-wrapped", "error-deadline", "error-access-denied"}
 var bodyKinds = []string{"valid", "null", "empty-object", "truncated", "wrong-types", "extra-fields", "huge-version", "trailing-garbage", "empty", "whitespace", "not-json", "array", "lowercase-fields"}
 
 type req struct {
@@ -115,6 +117,20 @@ func whoAnswer(kind string) (resp *apitype.WhoIsResponse, err error, rules []ref
 		return w, nil, nil, false
 	case "error":
 		return nil, errors.New("tailscaled: no such peer"), nil, false
+	case "error-peer-not-found": // what the real local client answers for an address outside the tailnet
+		return nil, local.ErrPeerNotFound, nil, false
+	case "error-peer-not-found-wrapped":
+		return nil, fmt.Errorf("whois %w (HTTP 404)", local.ErrPeerNotFound), nil, false
+	case "error-deadline":
+		return nil, fmt.Errorf("whois: %w", context.DeadlineExceeded), nil, false
+	case "error-access-denied":
+		return nil, &local.AccessDeniedError{}, nil, false
+	case "tagged-with-owner-profile": // the control plane gives tagged nodes the shared owner profile
+		w := base()
+		w.Node.Tags = []string{"tag:ci"}
+		w.UserProfile.LoginName = "tagged-devices"
+		w.CapMap[server.ACLCap] = raw(restrictedRules)
+		return w, nil, restrictedRules, true
 	case "https-cap":
 		w := base()
 		w.CapMap[httpsCap] = raw(fullRules)
@@ -190,6 +206,10 @@ func body(rng *rand.Rand, kind string, op ops.Op) []byte {
 		return []byte(fmt.Sprintf(`{"Name":%q,"Version":4294967296,"Value":"eA=="}`, op.Name))
 	case "trailing-garbage":
 		return append(append([]byte(nil), good...), " trailing garbage"...)
+	case "padded":
+		// a well-formed request followed by megabytes of white space (still one JSON value): a server may refuse
+		// it for its size, cleanly, or serve it
+		return append(append([]byte(nil), good...), bytes.Repeat([]byte(" \n"), 2<<20+2<<19)...)
 	case "empty":
 		return nil
 	case "whitespace":
@@ -236,7 +256,7 @@ func TestC08(t *testing.T) {
 		concurrentReplies(t, r, dir)
 		sharedConditional(t, r, dir)
 	}
-	r.Require("gate_violations", "accepted_requests", "accepted_200", "accepted_304", "accepted_403", "accepted_404", "accepted_other_error", "unidentified_callers", "client_mapping_checks", "audit_principals_checked", "grey_bodies", "concurrent_replies_checked", "overlapping_conditional_gets")
+	r.Require("gate_violations", "accepted_requests", "accepted_200", "accepted_304", "accepted_403", "accepted_404", "accepted_other_error", "unidentified_callers", "client_mapping_checks", "audit_principals_checked", "grey_bodies", "concurrent_replies_checked", "overlapping_conditional_gets", "padded_bodies")
 	r.Rule("requests = product of 7 endpoints x 7 methods x 6 content types x 5 browser-header values x 17 WhoIs scripts x 13 body kinds, enumerated completely for /api/get and /api/put on every database state and sampled (seeded) for the other endpoints, all from ONE source address per state so that identity must be re-derived per request. Distinct = (endpoint, first violated gate or outcome class, status)")
 }
 
@@ -387,7 +407,7 @@ func runState(t *testing.T, r *evid.Run, dir string, stIdx int) {
 				mop.Kind = ops.Get
 			}
 			grey = true
-		case "extra-fields", "trailing-garbage", "lowercase-fields":
+		case "extra-fields", "trailing-garbage", "lowercase-fields", "padded":
 			grey = true
 		}
 		if mop.Kind == ops.GetVer && mop.Version == 0 {
@@ -501,11 +521,18 @@ func runState(t *testing.T, r *evid.Run, dir string, stIdx int) {
 		}
 		one(q)
 	}
+	// over-long but well-formed bodies, on every endpoint
+	for _, ep := range endpoints {
+		for _, wk := range []string{"user", "restricted", "no-caps", "error", "tagged-with-owner-profile"} {
+			one(req{Endpoint: ep, Method: "POST", CType: "application/json", Browser: "setec", Who: wk, Body: "padded", Op: genOp(ep)})
+			r.Count("padded_bodies", 1)
+		}
+	}
 	// well-formed requests from every kind of identified caller
 	for i, n := 0, r.N(3000, 20000); i < n; i++ {
 		ep := endpoints[rng.IntN(len(endpoints))]
 		one(req{Endpoint: ep, Method: "POST", CType: "application/json", Browser: "setec", Body: "valid", Op: genOp(ep),
-			Who: []string{"user", "tagged", "restricted", "https-cap", "both-caps", "empty-grants", "no-caps", "plain-cap"}[rng.IntN(8)]})
+			Who: []string{"user", "tagged", "restricted", "https-cap", "both-caps", "empty-grants", "no-caps", "plain-cap", "tagged-with-owner-profile"}[rng.IntN(9)]})
 	}
 	// client-side mapping through the real Client
 	cl := setec.Client{Server: "http://setec.verif/", DoHTTP: srv.ClientDo(remote)}
